@@ -1,5 +1,5 @@
 import importlib
-MODULES = ['leaf_checks', 'lang']
+MODULES = ['leaf_checks', 'lang', 'enforce']
 
 
 def load_all():
